@@ -106,6 +106,18 @@ def run_c10_source(ctx: Ctx, M: AnnotateModel):
             for n in ast.walk(s.value):
                 if isinstance(n, ast.Call) and isinstance(n.func, ast.Attribute) and n.func.attr == "update" and len(n.args) == 2:
                     got[s.targets[0].id] = (norm(n.args[0]), norm(n.args[1]).split(".")[-1], s)
+    # ... and nothing else moves a translated offset before the overlap / tag handling sees it: inside the updater branch start and end are
+    # assigned by the translation only
+    for n in walk_local(M.LOOP):
+        if isinstance(n, ast.If) and any(isinstance(c_, ast.Call) and isinstance(c_.func, ast.Attribute) and c_.func.attr == "update" for s_ in n.body for c_ in ast.walk(s_)) \
+                and not any(isinstance(x, ast.If) and x is not n and any(y is n for y in ast.walk(x)) and any(
+                    isinstance(c_, ast.Call) and isinstance(c_.func, ast.Attribute) and c_.func.attr == "update" for c_ in ast.walk(x.test)) for x in walk_local(M.LOOP)):
+            extra = [s_ for s_ in stmts_local(n.body) if isinstance(s_, (ast.Assign, ast.AugAssign, ast.AnnAssign)) and ({S, E} & assigned_names(s_))
+                     and not any(isinstance(c_, ast.Call) and isinstance(c_.func, ast.Attribute) and c_.func.attr == "update" for c_ in ast.walk(s_))]
+            extra += [x for s_ in stmts_local(n.body) for x in ast.walk(s_) if isinstance(x, ast.NamedExpr) and x.target.id in (S, E)]
+            ctx.ob("C10-R7", f"{q}/translated-offsets-not-moved", not extra,
+                   f"in the source-text branch `{S}` / `{E}` are assigned by the offset translation only ({[norm(x)[:40] for x in extra]}): any further "
+                   "adjustment decides where an annotation goes from something other than the plain span", node=extra[0] if extra else n, mod=m)
     ok = got.get(S, (None, None))[:2] == (S, "bisect_right") and got.get(E, (None, None))[:2] == (E, "bisect_left")
     ctx.ob("C10-R7", f"{q}/bisect-sides", ok,
            "a span start must map after material inserted at that offset (bisect_right) and a span end before it (bisect_left), so "
@@ -166,6 +178,7 @@ def run_c10_source(ctx: Ctx, M: AnnotateModel):
                    "characters never anchor a match, so a plain character standing between two insertions is reported as replaced and its offsets collapse onto the "
                    "start of the inserted material", node=c_, mod=mod_)
     rule_monotone_table(ctx, repo, m)
+    rule_diff_steps(ctx, repo, m)
     # R-C10-9: the offset table is built from a diff of the very strings the offsets refer to
     init = repo.func("annotate.SpanUpdater.__init__")
     if init is not None:
@@ -435,6 +448,185 @@ def rule_monotone_table(ctx: Ctx, repo, m):
     ctx.ob("C10-R12", f"{q}/monotone-invariant", n_paths >= 3 and n_ranges >= 2,
            f"{n_paths} paths of the fold preserve `every value handed out so far <= {c1} + {c2}` ({n_ranges} range-creating paths): the translation is monotone "
            "and ends at the source length whenever the steps are a diff of (plain, source)", node=loop, mod=m)
+
+
+def rule_diff_steps(ctx: Ctx, repo, m, rule: str = "C10-R13"):
+    """C10-R13: the steps handed to the table builder account for every character of both texts, and `=` is only claimed for characters difflib
+    reports as equal.  Decided for the fallback engine, whose steps eyecite computes itself from SequenceMatcher.get_opcodes(): for each of the four
+    opcode tags the loop body's path yields steps whose '='/'-' amounts add up to a2 - a1 and whose '='/'+' amounts add up to b2 - b1 (linear
+    arithmetic, with difflib's documented facts a1 == a2 for insert, b1 == b2 for delete, equal lengths for equal), and '=' is yielded for tag
+    `equal` only.  Steps that stop short of the end of a text leave its tail translated by the last shift: past the end of the source."""
+    from ..paths import enumerate_paths
+    fn = None
+    for q_, mod_, f_ in repo.all_funcs():
+        if mod_.name == "annotate" and any(isinstance(n, ast.Call) and (dotted(n.func) or "").split(".")[-1] == "SequenceMatcher" for n in walk_local(f_)):
+            fn, q = f_, q_
+    if fn is None:
+        ctx.ob(rule, "annotate/difflib-engine", True, "no difflib engine in the package", node=None, mod=m, nontrivial=False)
+        return
+    loop = next((x for x in walk_local(fn) if isinstance(x, ast.For) and isinstance(x.iter, ast.Call) and isinstance(x.iter.func, ast.Attribute)
+                 and x.iter.func.attr == "get_opcodes" and isinstance(x.target, ast.Tuple) and len(x.target.elts) == 5), None)
+    ctx.ob(rule, f"{q}/steps-from-opcodes", loop is not None,
+           "the steps are derived from SequenceMatcher.get_opcodes() (tag, a1, a2, b1, b2), whose blocks tile both texts completely; another derivation "
+           "(matching blocks, a hand-written walk) would need its own completeness argument", node=loop or fn, mod=m)
+    if loop is None:
+        return
+    others = [y for y in walk_local(fn) if isinstance(y, (ast.Yield, ast.YieldFrom, ast.Return)) and not any(y is z for z in ast.walk(loop)) and getattr(y, "value", None) is not None]
+    ctx.ob(rule, f"{q}/steps-only-from-the-loop", not others, f"no step is produced outside the opcode loop ({[norm(o)[:40] for o in others]})", node=others[0] if others else loop, mod=m,
+           nontrivial=False)
+    OP, A1, A2, B1, B2 = [e.id if isinstance(e, ast.Name) else "?" for e in loop.target.elts]
+    facts = {"insert": {A2: {A1: 1}}, "delete": {B2: {B1: 1}}, "equal": {B2: {B1: 1, A2: 1, A1: -1}}, "replace": {}}
+    seen = set()
+
+    class _Undecided(Exception):
+        pass
+
+    def run_tag(tag, choice=0):
+        """interpret the loop body for one opcode tag: conditions on the tag are decided, yields are collected"""
+        flags, funcs = {}, {}
+        steps = []
+        und = []
+
+        def cond(e):
+            if isinstance(e, ast.Compare) and len(e.ops) == 1 and norm(e.left) == OP:
+                c0 = e.comparators[0]
+                if isinstance(e.ops[0], (ast.Eq, ast.NotEq)) and isinstance(c0, ast.Constant):
+                    return (tag == c0.value) == isinstance(e.ops[0], ast.Eq)
+                if isinstance(e.ops[0], (ast.In, ast.NotIn)) and isinstance(c0, (ast.Tuple, ast.List, ast.Set)) and all(isinstance(x, ast.Constant) for x in c0.elts):
+                    return (tag in [x.value for x in c0.elts]) == isinstance(e.ops[0], ast.In)
+            if isinstance(e, ast.Name) and e.id in flags:
+                return flags[e.id]
+            if isinstance(e, ast.Name) and e.id in funcs:
+                return funcs[e.id] is not None
+            if isinstance(e, ast.Compare) and len(e.ops) == 1 and isinstance(e.left, ast.Name) and e.left.id in funcs and isinstance(e.comparators[0], ast.Constant) \
+                    and e.comparators[0].value is None and isinstance(e.ops[0], (ast.Is, ast.IsNot)):
+                return (funcs[e.left.id] is None) == isinstance(e.ops[0], ast.Is)
+            if isinstance(e, ast.UnaryOp) and isinstance(e.op, ast.Not):
+                return not cond(e.operand)
+            if isinstance(e, ast.BoolOp):
+                vs = [cond(v) for v in e.values]
+                return all(vs) if isinstance(e.op, ast.And) else any(vs)
+            # a condition on something else (lengths, say): both outcomes are explored, each must conserve
+            und.append(norm(e)[:50])
+            if len(und) > 4:
+                raise _Undecided(f"too many conditions that are not tests of the opcode tag ({und})")
+            return bool((choice >> (len(und) - 1)) & 1)
+
+        def table_entry(call):
+            # TABLE.get(operation) / TABLE[operation] on a module-level dict of functions
+            base = call.func.value if isinstance(call, ast.Call) and isinstance(call.func, ast.Attribute) and call.func.attr == "get" else (
+                call.value if isinstance(call, ast.Subscript) else None)
+            key = (call.args[0] if isinstance(call, ast.Call) and call.args else call.slice if isinstance(call, ast.Subscript) else None)
+            if not isinstance(base, ast.Name) or key is None or norm(key) != OP:
+                raise _Undecided(f"`{norm(call)[:50]}` is not a look-up of the opcode tag in a table")
+            tbl = m.toplevel_assign(base.id)
+            if not isinstance(tbl, ast.Dict):
+                raise _Undecided(f"`{base.id}` is not a module-level dict literal")
+            for k_, v_ in zip(tbl.keys, tbl.values):
+                if isinstance(k_, ast.Constant) and k_.value == tag:
+                    f_ = repo.func(f"annotate.{v_.id}") if isinstance(v_, ast.Name) else v_ if isinstance(v_, ast.Lambda) else None
+                    if f_ is None:
+                        raise _Undecided(f"table entry for `{tag}` is not a function of this module")
+                    return f_
+            return None
+
+        def emit(v, env):
+            if not (isinstance(v, ast.Tuple) and len(v.elts) == 2 and isinstance(v.elts[0], ast.Constant) and v.elts[0].value in ("=", "+", "-")):
+                raise _Undecided(f"step `{norm(v)[:40]}` is not (('='|'+'|'-'), amount)")
+            amt = _lin(v.elts[1], env)
+            if amt is None:
+                raise _Undecided(f"amount `{norm(v.elts[1])[:40]}` is not linear in the opcode's offsets")
+            steps.append((v.elts[0].value, amt, v))
+
+        def block(stmts, env):
+            for st in stmts:
+                if isinstance(st, ast.If):
+                    if block(st.body if cond(st.test) else st.orelse, env) == "stop":
+                        return "stop"
+                elif isinstance(st, ast.Assign) and len(st.targets) == 1 and isinstance(st.targets[0], ast.Name):
+                    nm = st.targets[0].id
+                    v0 = st.value
+                    if (isinstance(v0, ast.Call) and isinstance(v0.func, ast.Attribute) and v0.func.attr == "get" and v0.args and norm(v0.args[0]) == OP) \
+                            or (isinstance(v0, ast.Subscript) and norm(v0.slice) == OP):
+                        funcs[nm] = table_entry(v0)
+                    else:
+                        flags[nm] = cond(v0)
+                elif isinstance(st, ast.Expr) and isinstance(st.value, ast.Yield):
+                    emit(st.value.value, env)
+                elif isinstance(st, ast.Expr) and isinstance(st.value, ast.YieldFrom):
+                    c = st.value.value
+                    if isinstance(c, (ast.Tuple, ast.List)):
+                        for e_ in c.elts:
+                            emit(e_, env)
+                        continue
+                    if not (isinstance(c, ast.Call) and isinstance(c.func, ast.Name) and c.func.id in funcs and funcs[c.func.id] is not None):
+                        raise _Undecided(f"`{norm(st)[:50]}`: steps come from something that is not a resolved table entry")
+                    f_ = funcs[c.func.id]
+                    ps = [a.arg for a in f_.args.args]
+                    body = f_.body if isinstance(f_, ast.Lambda) else None
+                    if body is None:
+                        from ..core import effective_body as _eb
+                        fb = _eb(f_)
+                        if len(fb) != 1 or not isinstance(fb[0], ast.Return):
+                            raise _Undecided(f"`{f_.name}` is not a single return of its steps")
+                        body = fb[0].value
+                    if len(ps) != len(c.args) or not isinstance(body, (ast.Tuple, ast.List)):
+                        raise _Undecided(f"`{norm(c)[:40]}`: the entry does not return a tuple of steps")
+                    env2 = {}
+                    for p_, a_ in zip(ps, c.args):
+                        v_ = _lin(a_, env)
+                        if v_ is None:
+                            raise _Undecided(f"argument `{norm(a_)[:30]}` is not linear")
+                        env2[p_] = v_
+                    for e_ in body.elts:
+                        emit(e_, env2)
+                elif isinstance(st, ast.Continue):
+                    return "stop"
+                elif isinstance(st, ast.Pass) or (isinstance(st, ast.Expr) and isinstance(st.value, ast.Constant)):
+                    continue
+                elif isinstance(st, ast.Expr) and isinstance(st.value, ast.Call) and (dotted(st.value.func) or "").split(".")[0] in ("logger", "logging", "log"):
+                    continue
+                else:
+                    raise _Undecided(f"statement `{norm(st)[:50]}` in the opcode loop is outside the step-producing forms")
+            return None
+
+        env = {A1: {A1: 1}, A2: {A2: 1}, B1: {B1: 1}, B2: {B2: 1}}
+        env.update(facts[tag])
+        block(loop.body, env)
+        return steps, env, len(und)
+
+    for tag in facts:
+        ok, why, at = True, "", loop
+        try:
+            runs = [run_tag(tag)]
+            for ch in range(1, 2 ** runs[0][2]):
+                runs.append(run_tag(tag, ch))
+        except _Undecided as e:
+            ctx.ob(rule, f"{q}/conserves:{tag}", False, f"cannot account for the steps of `{tag}` blocks: {e}", node=loop, mod=m)
+            seen.add(tag)
+            continue
+        if not any(r_[0] for r_ in runs):
+            continue
+        seen.add(tag)
+        for steps, env, _n in runs:
+            a_sum, b_sum = {}, {}
+            for k, amt, node_ in steps:
+                if k == "=" and tag != "equal":
+                    ok, why, at = False, f"'=' is yielded for a `{tag}` block: its characters differ, so offsets inside it must not be carried over one to one", node_
+                for side, kinds in ((a_sum, "=-"), (b_sum, "=+")):
+                    if k in kinds:
+                        for kk, vv in amt.items():
+                            side[kk] = side.get(kk, 0) + vv
+            want_a = _sub(env[A2], env[A1])
+            want_b = _sub(env[B2], env[B1])
+            if ok and _sub(a_sum, want_a):
+                ok, why = False, f"for `{tag}` the '=' and '-' amounts add up to {a_sum}, not to a2 - a1 = {want_a}: part of the plain text is not accounted for"
+            if ok and _sub(b_sum, want_b):
+                ok, why = False, f"for `{tag}` the '=' and '+' amounts add up to {b_sum}, not to b2 - b1 = {want_b}: part of the source text is not accounted for"
+        ctx.ob(rule, f"{q}/conserves:{tag}", ok, why or f"`{tag}` blocks are turned into steps that cover exactly a[a1:a2] and b[b1:b2]", node=at, mod=m)
+    missing = sorted(set(facts) - seen)
+    ctx.ob(rule, f"{q}/all-opcode-tags", not missing, f"every opcode tag has a branch (missing: {missing}): an unhandled block silently drops its characters from the table",
+           node=loop, mod=m)
 
 
 def run(ctx: Ctx):
